@@ -208,6 +208,12 @@ func (ids ACLServiceIdentities) Deduplicate() ACLServiceIdentities {
 	for _, id := range ids {
 		entry, ok := unique[id.ServiceName]
 		if ok {
+			if len(entry.Datacenters) == 0 || len(id.Datacenters) == 0 {
+				// No datacenters means valid in every datacenter: the
+				// combination must not be narrowed to the other's list.
+				entry.Datacenters = nil
+				continue
+			}
 			dcs := stringslice.CloneStringSlice(id.Datacenters)
 			sort.Strings(dcs)
 			entry.Datacenters = stringslice.MergeSorted(dcs, entry.Datacenters)
